@@ -36,7 +36,8 @@ def gen(rng, tier):
             L["interval"] = 50.0
             L["after"] = rng.choice([1, 2, 3])
         if L["t"] == "throttle":
-            L["block"] = False
+            # blocking mode: submit() may wait for room - but never once the executor is shut down
+            L["block"] = rng.random() < 0.3
     nsubs = rng.choice([0, 1, 2, 3, 4])
     subs = {}
     for s in range(nsubs + 2):
@@ -127,6 +128,7 @@ def run(spec, env):
             env.await_("shutdown2-ret", 100000.0)
         # afterwards submit must refuse, on every executor of the chain
         for lvl, e in enumerate([ex] + (chain[1:] if True else [])):
+            env.rec("post-submit-begin", type(e).__name__)
             try:
                 if spec["asyncio_top"] and e is ex:
                     e.submit(make_fn(0))
@@ -159,6 +161,16 @@ def check(spec, env):
     cul = "+".join(sorted(set(L["t"] for L in spec["layers"])))
     sds = [e for e in log if e[3] == "shutdown"]
     srs = [e for e in log if e[3] == "shutdown-ret"]
+    nbeg = [e for e in log if e[3] == "post-submit-begin"]
+    nend = [e for e in log if e[3] == "post-submit"]
+    sub_b = {e[0]: e for e in log if e[3] == "submit"}
+    sub_r = set(e[7] for e in log if e[3] == "submit-ret")
+    if sim.outcome[0] in ("horizon", "stuck") and sds and len(srs) == len(sds) and (len(nbeg) > len(nend) or any(k not in sub_r for k in sub_b)):
+        who = nbeg[len(nend)][4] if len(nbeg) > len(nend) else "racing"
+        out.append({"oracle": "submit-after-shutdown", "sig": "submit-blocked-forever|%s|%s" % (cul, "after-shutdown" if len(nbeg) > len(nend) else "racing"),
+                    "msg": "shutdown() returned, but a submit() (%s) %s never returned nor raised (outcome %s); layers %s; blocked: %r"
+                           % (who, "issued afterwards" if len(nbeg) > len(nend) else "racing with it", sim.outcome[0], spec["layers"], sim.final_blocked)})
+        return out
     if sim.outcome[0] in ("horizon", "stuck") or (sds and len(srs) < len(sds)):
         blocked = [b for b in sim.final_blocked if b[0].startswith("client-sd")]
         out.append({"oracle": "shutdown-returns", "sig": "shutdown-never-returned|%s|wait=%s" % (cul, spec["wait"]),
@@ -184,8 +196,10 @@ def check(spec, env):
         if alive:
             out.append({"oracle": "join", "sig": "thread-alive-after-shutdown|%s" % ",".join(sorted(set(a.rstrip("0123456789-_") for a in alive))),
                         "msg": "shutdown(wait=True) returned while worker threads were still alive: %r; layers %s" % (alive, types)})
-    # did not wait out a sleep / interval
-    if spec["wait"] and spec.get("shutters", 1) == 1:
+    # did not wait out a sleep / interval (not judged with a blocking-mode throttle: a submit()
+    # waiting for room holds the shutdown gate by design, so shutdown() waits as long as that does)
+    blocking = any(L["t"] == "throttle" and L.get("block") for L in spec["layers"])
+    if spec["wait"] and spec.get("shutters", 1) == 1 and not blocking:
         total = sum(s["dur"] * (1 + s["fail"]) for s in spec["subs"].values())
         took = (srs[0][1] - sds[0][1]) / 1e9
         if took > total + 1.0:
